@@ -153,6 +153,7 @@ func (l *txPricedList) Underpriced(tx *types.Transaction) bool {
 // Note local transaction won't be considered for eviction.
 func (l *txPricedList) Discard(slots int, force bool) (types.Transactions, bool) {
 	drop := make(types.Transactions, 0, slots) // Remote underpriced transactions to drop
+	taken := make(map[common.Hash]struct{}, slots)
 	for len(*l.remotes) > 0 && slots > 0 {
 		// Discard stale transactions if found during cleanup
 		tx := heap.Pop(l.remotes).(*types.Transaction)
@@ -160,6 +161,13 @@ func (l *txPricedList) Discard(slots int, force bool) (types.Transactions, bool)
 			atomic.AddInt64(&l.stales, -1)
 			continue
 		}
+		// A transaction that left the pool and came back before the next reheap has two
+		// entries, both of which look live: the second one is the stale entry of the first
+		if _, dup := taken[tx.Hash()]; dup {
+			atomic.AddInt64(&l.stales, -1)
+			continue
+		}
+		taken[tx.Hash()] = struct{}{}
 		// Non stale transaction found, discard it
 		drop = append(drop, tx)
 		slots -= numSlots(tx)
